@@ -102,6 +102,18 @@ def run_case(case, work, rec):
         sites = random.Random(11).sample(sites, len(sites))[k::K][:case["sample"]]
         k, K = 0, 1
     dst = os.path.join(work, "mut")
+    acc = dst       # the path validation and reader are given
+    if case.get("reach"):
+        # the damaged copies too are reached through `<symlinked directory>/../mut` (nothing sits where that
+        # path collapses lexically): validation and reader must follow the same path
+        real_parent = os.path.join(work, "arch2", "run")
+        os.makedirs(os.path.join(real_parent, "out"), exist_ok=True)
+        os.makedirs(os.path.join(work, "runs2"), exist_ok=True)
+        if not os.path.islink(os.path.join(work, "runs2", "latest")):
+            os.symlink(os.path.join("..", "arch2", "run", "out"), os.path.join(work, "runs2", "latest"))
+        dst = os.path.join(real_parent, "mut")
+        acc = os.path.join(work, "runs2", "latest", "..", "mut")
+        rec.count("reached_through_link_dotdot")
 
     def one(muts, kinds):
         if not mutate.mutant(path, dst, inf, muts):
@@ -111,7 +123,7 @@ def run_case(case, work, rec):
         key = (digest, str(muts), limit)
         descr = f"{muts} limit_level={limit}"
         try:
-            good = bool(Taster(dst, limit_level=limit, nofail=True, verbose=0))
+            good = bool(Taster(acc, limit_level=limit, nofail=True, verbose=0))
         except Exception as e:
             rec.count("rejected"); rec.count("taste_raised_in_nofail")
             rec.ok(key, False)     # not this property's concern (C04's)
@@ -127,7 +139,7 @@ def run_case(case, work, rec):
             H = None
         L = finest if limit is None else limit
         try:
-            pck = PlotfileCooker(dst, limit_level=limit)
+            pck = PlotfileCooker(acc, limit_level=limit)
         except Exception as e:
             rec.violation(f"validation accepted but opening raised {type(e).__name__}: {descr}", key=key,
                           witness={"mutations": muts, "exc": repr(e)[:300]})
